@@ -19,6 +19,10 @@ func usage() {
 }
 
 func main() {
+	// go/packages resolves `go` through this process's PATH; the repository needs go >= 1.26.
+	if _, err := os.Stat("/opt/veriftools/go1.26.8/bin/go"); err == nil && !strings.Contains(os.Getenv("PATH"), "/opt/veriftools/go1.26.8/bin") {
+		os.Setenv("PATH", "/opt/veriftools/go1.26.8/bin:"+os.Getenv("PATH"))
+	}
 	if len(os.Args) < 2 {
 		usage()
 	}
@@ -38,6 +42,8 @@ func main() {
 			usage()
 		}
 		os.Exit(runEmit(os.Args[2]))
+	case "mutate":
+		os.Exit(runMutateCLI(os.Args[2:]))
 	case "replay":
 		if len(os.Args) < 3 {
 			usage()
